@@ -285,7 +285,7 @@ SPECS = {
         corr=corr("spec,parseint", "C18"),
         model_note="Pure/Spec.v parse_spec/build_spec model retry/backoff.go parseFromSpec, the three parse* helpers and BackoffBuilder.Build over byte strings; strconv.ParseInt modelled exactly, strconv.ParseFloat an oracle",
         trusted=COMMON_TRUST,
-        partial=["BaseBackoff(base) given explicitly and repeated Build() calls on one builder are exercised by the harness only through fresh builders (builder caching is not in the model)"],
+        partial=["BaseBackoff(base) given explicitly is not in the model; repeated Build() calls on one builder are compared by the harness (second result must equal the first), the builder's cache itself is not modelled"],
         replay_how="each entry: spec string as hex after 'x', ParseFloat oracle for the 3rd field, layers (l n | j lobits hibits | w ratebits)",
     ),
 }
